@@ -287,11 +287,12 @@ class Pair:
         self.c0 = "c0:" + name
         self.E0 = "E0:" + name
         self.root = self       # pairs with the same root measure their offset K from the same address
+        self.kind = "buf"      # "str": a NUL-terminated string; c0 is then (known non-NUL prefix length) + 1
 
 
 INPUT_NAMES = ("der", "apdu", "cert", "epki", "src", "in", "buf", "body")
 COUNT_NAMES = ("count", "len", "size", "der_len", "cert_len", "apdu_len", "epki_len", "in_len", "body_len")
-NOT_READERS = {"memIsValid", "memIsNullOrValid", "memIsDisjoint2", "memIsDisjoint", "memIsSameOrDisjoint", "memIsDisjoint3",
+NOT_READERS = {"strnlen", "memIsValid", "memIsNullOrValid", "memIsDisjoint2", "memIsDisjoint", "memIsSameOrDisjoint", "memIsDisjoint3",
                "memIsAligned", "utilAssert"}
 
 
@@ -325,6 +326,18 @@ def capacity(e):
     return int(m.group(1)) if m else None
 
 
+def find_str_pairs(func):
+    """const char* parameters: NUL-terminated strings.  The readable extent c0 is not given by a length but grows as
+    characters are found to be non-zero: reading s[i] is allowed when s[0..i-1] are known non-zero (i + 1 <= c0)."""
+    out = []
+    for p in func.params:
+        if p.get("p") and (p.get("t") or "").replace(" ", "") == "constchar*":
+            pr = Pair(p["n"], p["id"], None)
+            pr.kind = "str"
+            out.append(pr)
+    return out
+
+
 def find_pairs(func):
     out = []
     ps = func.params
@@ -337,14 +350,17 @@ def find_pairs(func):
 
 
 class Analyzer:
-    def __init__(self, func, prog, contracts):
+    def __init__(self, func, prog, contracts, strings=False):
         self.f, self.prog = func, prog
         self.contracts = contracts      # name -> set of {'consumed', 'region'}
         self.pairs = {p.ptr_id: p for p in find_pairs(func)}
+        for p in (find_str_pairs(func) if strings else []):
+            self.pairs.setdefault(p.ptr_id, p)
         self.entry_pairs = list(self.pairs.values())
         self.cnt_ids = {p.cnt_id for p in self.pairs.values()}
         self.reads, self.subs, self.rets, self.regions = {}, {}, {}, {}
         self.writes = {}
+        self.srets = {}
         self.pending = {}      # result var id -> (kind, Lin bound, region info)
         self.record = False
         self.ghost = 0
@@ -487,6 +503,8 @@ class Analyzer:
                     ne.add((L2.key(), -L2.c))
                 else:
                     ne.add((key, c))
+            # the old value was >= 0 (implicit for every symbol): new - d >= 0
+            new.add(le(d, V(sym)))
             return State(frozenset(new), frozenset(ne))
         if sym in lin.t:
             # non-invertible self reference: go through a temporary
@@ -616,6 +634,8 @@ class Analyzer:
                     d = None
                     if e["op"] == "+=":
                         d = self.lin(rhs)
+                        if d is None and rhs.get("k") == "Un" and rhs["op"] in ("pre++", "pre--"):
+                            d = self.lin(rhs["e"])      # p += ++i: the increment was applied when the operand was read
                     elif e["op"] == "-=":
                         d = self.lin(rhs)
                         d = d.scale(-1) if d is not None else None
@@ -635,6 +655,7 @@ class Analyzer:
                         newp = Pair(lhs["n"], vid)
                         self.pairs[vid] = newp
                     newp.root = base.root
+                    newp.kind = base.kind
                     st = self.forget_prefix(st, "B:%s[" % newp.name)
                     st = self.forget(st, newp.K)
                     st = self.forget(st, newp.c0)
@@ -684,7 +705,9 @@ class Analyzer:
                 if d < 0 and l.get("k") == "Ref" and l["id"] in self.cnt_ids:
                     if self.record:
                         self.subs.setdefault((node.line, show(e)[:50]), []).append(implied(st.cons, le(C(1), V(sym))))
-                if not (implied(st.cons, le(V(sym) + C(d), C(MAXW))) and implied(st.cons, le(C(0), V(sym) + C(d)))):
+                # a decrement must be shown not to pass 0; a unit increment is taken not to reach SIZE_MAX (a counter
+                # that grows by one per step would need 2^64 steps: stated assumption)
+                if d < 0 and not implied(st.cons, le(C(0), V(sym) + C(d))):
                     return self.assign(st, sym, None)      # the step may wrap
                 return self.assign(st, sym, V(sym) + C(d))
             return self.reads_in(l, st, node)
@@ -866,6 +889,13 @@ class Analyzer:
     def call(self, c, st, node, result=None):
         cn = c.get("callee")
         if cn == "utilAssert":
+            # ASSERT(memIsValid(s, k)) on a string parameter states the helper's precondition: k characters are readable
+            for m_ in ir.calls(c):
+                if m_.get("callee") == "memIsValid" and len(m_["a"]) == 2:
+                    po = self.ptr_offset(m_["a"][0])
+                    k_ = self.lin(m_["a"][1])
+                    if po is not None and po[0].kind == "str" and po[1] is not None and k_ is not None and not k_.t:
+                        st = State(st.cons | {le(V(po[0].K) + po[1] + k_, V(po[0].c0))}, st.ne)
             return st
         self.cur = st
         for a in c["a"]:
@@ -874,9 +904,21 @@ class Analyzer:
         self.cur = st
         proto = self.prog.proto(cn, self.f.unit) if cn else None
         kinds = self.contracts.get(cn, set())
+        # strings handed to a callee as strings: the position passed must be inside the string (readable)
+        strlen_of = None
+        if proto is not None:
+            for i, a in enumerate(c["a"]):
+                po = self.ptr_offset(a)
+                if po is None or po[0].kind != "str" or i >= len(proto.params):
+                    continue
+                if (proto.params[i].get("t") or "").replace(" ", "") == "constchar*":
+                    self.check_read(st, po[0], po[1], node, "%s(%s) as a string" % (cn, show(a)[:24]))
+                    if cn in ("strLen", "strlen") and po[1] is not None:
+                        strlen_of = (po[0], po[1])
         bound = None
         region = None
         ghosts = []
+        str_post = None
         self._post = None
         st = self.output_write(c, cn, proto, st, node)
         post = self._post
@@ -960,6 +1002,20 @@ class Analyzer:
                         st = State(st.cons | {le(V(g2), len_lin), le(len_lin, V(g2))}, st.ne)
                         len_lin = V(g2)
         owned = False
+        if "strconsumed" in kinds and result is not None and strip(result).get("k") == "Ref" and proto is not None:
+            # t = f(.., str + off): on success the callee has found str[off .. off + t) non-zero (its own returns are
+            # checked for that), so position off + t is readable
+            for i, a in enumerate(c["a"]):
+                po = self.ptr_offset(a)
+                if po is not None and po[0].kind == "str" and po[1] is not None and i < len(proto.params) and \
+                        (proto.params[i].get("t") or "").replace(" ", "") == "constchar*":
+                    gs = self.fresh("%s:%d:spos" % (c.get("l"), i))
+                    ghosts.append(gs)
+                    st = self.forget(st, gs)
+                    st = State(st.cons | {le(V(gs), V(po[0].K) + po[1]), le(V(po[0].K) + po[1], V(gs))}, st.ne)
+                    bound = V(po[0].c0)
+                    str_post = [le(V(gs) + V(self.sym(strip(result))) + C(1), V(po[0].c0))]
+                    break
         if "zero" in kinds and bound is None:
             gz = self.fresh("%s:zero" % c.get("l"))
             ghosts.append(gz)
@@ -981,7 +1037,8 @@ class Analyzer:
                         # keyed by the call's snapshot symbol: the entry applies in a state only while that symbol is
                         # still constrained there, i.e. on paths where this call was the last one stored in the variable
                         self.pending.setdefault(rs["id"], {})[ghosts[0]] = \
-                            (bound, region, val_ref, len_ref if len_ref is not None else len_lin, self.instantiate_post(cn, c))
+                            (bound, region, val_ref, len_ref if len_ref is not None else len_lin,
+                             (self.instantiate_post(cn, c) or []) + (str_post or []))
                         owned = True
                         for g_ in ghosts:
                             self.ghost_owner[g_] = rs["id"]
@@ -989,6 +1046,10 @@ class Analyzer:
             # nobody will look at the snapshot symbols of this call again
             for g_ in ghosts:
                 st = self.forget(st, g_)
+        if strlen_of is not None and result is not None and strip(result).get("k") == "Ref" and not strip(result).get("p"):
+            pr, off = strlen_of
+            rsym = self.sym(strip(result))
+            st = State(st.cons | {le(V(pr.K) + off + V(rsym) + C(1), V(pr.c0))}, st.ne)
         if post is not None:
             L, psym = post
             st = self.forget(st, L)
@@ -1146,10 +1207,81 @@ class Analyzer:
         return st
 
     # ---- conditions
+    def _str_cell(self, e):
+        """(pair, absolute offset Lin) if e reads one character of a tracked string"""
+        e = strip(e)
+        if not isinstance(e, dict):
+            return None
+        if e.get("k") == "Index":
+            po = self.ptr_offset(e["b"])
+            ix = self.lin(e["i"])
+            if po is not None and po[0].kind == "str" and po[1] is not None and ix is not None:
+                return po[0], V(po[0].K) + po[1] + ix
+        if e.get("k") == "Un" and e["op"] == "*":
+            po = self.ptr_offset(e["e"])
+            if po is not None and po[0].kind == "str" and po[1] is not None:
+                return po[0], V(po[0].K) + po[1]
+        return None
+
+    def learn_nonzero(self, c, pol, st):
+        """the condition c == pol shows that a character of a string is not the terminator: everything up to and
+        including the next position is readable"""
+        c = strip(c)
+        cell, nz = None, False
+        if c.get("k") in ("Index", "Un") and pol:
+            cell, nz = self._str_cell(c), True
+        elif c.get("k") == "Bin" and c["op"] in ("==", "!=", "<", "<=", ">", ">=") and int_val(c["y"]) is not None:
+            cell = self._str_cell(c["x"])
+            v, op = int_val(c["y"]), c["op"]
+            if not pol:
+                op = {"==": "!=", "!=": "==", "<": ">=", "<=": ">", ">": "<=", ">=": "<"}[op]
+            nz = (op == "!=" and v == 0) or (op == "==" and v != 0) or (op == ">" and v >= 0) or (op == ">=" and v >= 1) or \
+                (op == "<" and v <= 0) or (op == "<=" and v <= -1)
+        if c.get("k") == "Bin" and c["op"] in ("==", "!=") and (c["op"] == "==") == bool(pol):
+            # *str == *prefix with *prefix known non-zero (it lies before its string's known extent)
+            c1, c2 = self._str_cell(c["x"]), self._str_cell(c["y"])
+            if c1 is not None and c2 is not None:
+                for me, other in ((c1, c2), (c2, c1)):
+                    if implied(st.cons, le(other[1] + C(2), V(other[0].c0))) and implied(st.cons, le(me[1] + C(1), V(me[0].c0))):
+                        st = State(st.cons | {le(me[1] + C(2), V(me[0].c0))}, st.ne)
+                return st
+        if cell is None or not nz:
+            return st
+        pair, a = cell
+        if not implied(st.cons, le(a + C(1), V(pair.root.c0 if False else pair.c0))):
+            return st
+        return State(st.cons | {le(a + C(2), V(pair.c0))}, st.ne)
+
     def assume(self, c, pol, st, node):
+        st = self._assume(c, pol, st, node)
+        if st is not None and not st.bottom() and any(p.kind == "str" for p in self.pairs.values()):
+            st = self.learn_nonzero(c, pol, st)
+        return st
+
+    def _assume(self, c, pol, st, node):
         self.cur = st
         c = strip(c)
         k = c.get("k")
+        if k == "Un" and c["op"] in ("post--", "post++", "pre--", "pre++") and strip(c["e"]).get("k") == "Ref" and \
+                not strip(c["e"]).get("p") and strip(c["e"])["id"] not in self.pairs:
+            # while (pos--) / while (--n): the tested value is the old (post) or the new (pre) one
+            l = strip(c["e"])
+            t = self.lin(l)
+            if t is not None and len(t.t) == 1:
+                sym = list(t.t)[0]
+                d = 1 if "++" in c["op"] else -1
+                if c["op"].startswith("post"):
+                    st = self.add(st, V(sym), "!=" if pol else "==", C(0))
+                    if st.bottom():
+                        return st
+                    if d < 0 and not implied(st.cons, le(C(1), V(sym))):
+                        return self.assign(st, sym, None)          # 0 - 1 wraps: the variable is dead after the loop
+                    return self.assign(st, sym, V(sym) + C(d))
+                if d < 0 and not implied(st.cons, le(C(1), V(sym))):
+                    st = self.assign(st, sym, None)
+                else:
+                    st = self.assign(st, sym, V(sym) + C(d))
+                return self.add(st, V(sym), "!=" if pol else "==", C(0))
         if k == "Bin" and c["op"] in ("==", "!=", "<", "<=", ">", ">="):
             x, y = strip(c["x"]), strip(c["y"])
             op = c["op"]
@@ -1189,6 +1321,7 @@ class Analyzer:
 
     # ---- fixpoint
     def join(self, a, b):
+        str_c0 = {p.c0 for p in self.pairs.values() if p.kind == "str"}      # a string's extent is a variable
         keep = set()
         for c in a.cons:
             if c in b.cons or implied(b.cons, c):
@@ -1200,7 +1333,7 @@ class Analyzer:
         syms = set()
         for k, _ in a.cons | b.cons:
             for s_, _v in k:
-                if not s_.startswith(("t", "B:", "g:", "E0:", "c0:")):
+                if not s_.startswith(("t", "B:", "g:", "E0:", "c0:")) or s_ in str_c0:
                     syms.add(s_)
         # a symbol pinned to one constant on both sides is described by its interval alone
         def pinned(st, x):
@@ -1345,6 +1478,9 @@ class Analyzer:
         self.param_ids = {p["id"] for p in self.f.params}
         init = set()
         for p in list(self.pairs.values()):
+            if p.kind == "str":
+                init |= {le(V(p.K), C(0)), le(C(0), V(p.K)), le(C(1), V(p.c0))}      # the first character is readable
+                continue
             cs = V("v%d" % p.cnt_id)
             init |= {le(V(p.K), C(0)), le(C(0), V(p.K)), le(cs, V(p.c0)), le(V(p.c0), cs), le(cs, V(p.E0)), le(V(p.E0), cs)}
         states = {cfg.entry.id: [State(frozenset(init))]}
@@ -1401,6 +1537,7 @@ class Analyzer:
                     if node.e is not None:
                         st2 = self.reads_in(node.e, st, node)
                         self.check_return(node.e, st2, node)
+                        self.check_str_return(node.e, st2, node)
                     outs = [(s, st2) for _, s in node.succ]
                 for s, st2 in outs:
                     st2 = self.drop_dead(st2, s.id)
@@ -1441,6 +1578,7 @@ class Analyzer:
                 elif node.kind == "return" and node.e is not None:
                     st2 = self.reads_in(node.e, st, node)
                     self.check_return(node.e, st2, node)
+                    self.check_str_return(node.e, st2, node)
         self.record = False
         return states
 
@@ -1471,3 +1609,14 @@ class Analyzer:
         lin = self.lin(e)
         ok = lin is not None and implied(st.cons, le(lin, V(pair.E0)))
         self.rets.setdefault((node.line, show(e)[:40]), []).append((ok, "consumed"))
+
+    def check_str_return(self, e, st, node):
+        """a function that reports how many characters of a string it matched: the matched characters were seen non-zero"""
+        if not self.record or self.f.ret.get("t") != "size_t":
+            return
+        sp = [p for p in self.entry_pairs if p.kind == "str"]
+        if not sp or int_val(strip(e)) == SIZE_MAX or "strconsumed" not in self.contracts.get(self.f.name, set()):
+            return
+        lin = self.lin(e)
+        ok = lin is not None and implied(st.cons, le(lin + C(1), V(sp[0].c0)))
+        self.srets.setdefault((node.line, show(e)[:40]), []).append(ok)
